@@ -451,7 +451,7 @@ TAILS = ('none', 'frames_eof', 'frames_batch', 'handler_disconnects', 'eof', 'eo
 INJECTS = ('none', 'disconnect', 'double', 'net_disconnect', 'send', 'remote_eof', 'remote_reset')
 
 
-def h_incoming(c, port, first, tail='none', inject='none', n_any=0):
+def h_incoming(c, port, first, tail='none', inject='none', n_any=0, slow='none'):
     obf_port = port == 'obf'
     sig = ['incoming', port, first if not first.startswith('any') else 'any', tail]
     loop = VLoop()
@@ -461,6 +461,7 @@ def h_incoming(c, port, first, tail='none', inject='none', n_any=0):
             W = World(c, loop, st, g)
             W.start()
             net, obs = W.net, W.obs
+            obs.slow_states = slow == 'states'
             R = Run(c, loop, W, st)
             # ---- pending indirect attempts (their direct attempt is refused first) ---------------------------
             n_pending = {'pierce_0': 0, 'pierce_1': 1, 'pierce_2': 2, 'pierce_match': 1, 'any': 1}.get(first, 0)
@@ -601,7 +602,7 @@ CONNECTS = ('ok', 'ok_slow', 'refused', 'refused_slow', 'hang')
 OUT_INJECTS = INJECTS + ('cancel', 'pierce')
 
 
-def h_outgoing(c, via, mode='fallback', typ='P', connect='ok', initsend='ok', tail='none', inject='none'):
+def h_outgoing(c, via, mode='fallback', typ='P', connect='ok', initsend='ok', tail='none', inject='none', slow='none'):
     sig = ['outgoing', via, mode, connect, initsend, tail]
     loop = VLoop()
     g = codec.Gen(c)
@@ -610,6 +611,7 @@ def h_outgoing(c, via, mode='fallback', typ='P', connect='ok', initsend='ok', ta
             W = World(c, loop, st, g, mode=mode, prefer_obf=c.choose(2, 'prefer_obfuscated') == 1 if via == 'request' else False)
             W.start()
             net, obs = W.net, W.obs
+            obs.slow_states = slow == 'states'
             R = Run(c, loop, W, st)
             st.script.append({'ok': ('ok', 0), 'ok_slow': ('ok', 1.0), 'refused': ('refused', 0), 'refused_slow': ('refused', 1.0),
                               'hang': ('hang', 0)}[connect])
@@ -679,7 +681,7 @@ def h_outgoing(c, via, mode='fallback', typ='P', connect='ok', initsend='ok', ta
 SERVER_ENDS = ('eof', 'reset', 'local', 'read_timeout', 'send_reset', 'eof_mid_frame', 'frames_then_eof')
 
 
-def h_server(c, connect='ok', end='eof', second='ok', inject='none'):
+def h_server(c, connect='ok', end='eof', second='ok', inject='none', slow='none'):
     sig = ['server', connect, end, second]
     loop = VLoop()
     g = codec.Gen(c)
@@ -689,6 +691,7 @@ def h_server(c, connect='ok', end='eof', second='ok', inject='none'):
             net, obs = W.net, W.obs
             S = net.server_connection
             S.read_timeout = 3
+            obs.slow_states = slow == 'states'
             R = Run(c, loop, W, st)
             st.script.append({'ok': ('ok', 0), 'ok_slow': ('ok', 1.0), 'refused': ('refused', 0), 'hang': ('hang', 0)}[connect])
             st.script.append({'ok': ('ok', 0), 'refused': ('refused', 0)}[second])
@@ -696,11 +699,15 @@ def h_server(c, connect='ok', end='eof', second='ok', inject='none'):
             def swire():
                 ws = [w for w in st.wires if w.owner is S]
                 return ws[-1] if ws else None
+            def begun():
+                # calling disconnect() before / while nobody has called connect() yet is not a way a connection ends
+                if not obs.states(S):
+                    raise symex.PathAbort('injection before the first connect() (same as no injection)')
             if inject == 'disconnect':
-                R.inject('disconnect', lambda: loop.spawn(net.disconnect_server(), name='inj-disconnect-server'))
+                R.inject('disconnect', lambda: (begun(), loop.spawn(net.disconnect_server(), name='inj-disconnect-server')))
             elif inject == 'send':
                 injmsg = M.GetUserStatus.Request(g.text('injsend.username', 2))
-                R.inject('send', lambda: loop.spawn(S.send_message(injmsg), name='inj-send'))
+                R.inject('send', lambda: (begun(), loop.spawn(S.send_message(injmsg), name='inj-send')))
             elif inject != 'none':
                 raise symex.HarnessError(inject)
             init = loop.spawn(net.initialize(), name='initialize')
@@ -770,8 +777,8 @@ def h_server(c, connect='ok', end='eof', second='ok', inject='none'):
 # ------------------------------------------------------------------------------------------------------------------
 
 BOUNDS = {
-    'quick': {'any': 9, 'any_obf': 6},
-    'thorough': {'any': 14, 'any_obf': 10},
+    'quick': {'any': 16, 'any_obf': 14},
+    'thorough': {'any': 22, 'any_obf': 18},
 }
 
 META = {
@@ -853,125 +860,167 @@ META = {
 }
 
 
+def _frame_tail(t):
+    return t in ('frames_eof', 'frames_batch', 'handler_disconnects')
+
+
 def jobs(tier):
     b = BOUNDS[tier]
-    lim = {'timeout_s': 600 if tier == 'quick' else 2400, 'solver_timeout_ms': 60000}
+    quick = tier == 'quick'
+    lim = {'timeout_s': 600 if quick else 2400, 'solver_timeout_ms': 60000}
     core = ['scenario_ran'] + CLAUSES
-    out = []
+    out, seen = [], set()
 
     def add(h, fn, params, req, w):
+        key = h + repr(sorted(params.items()))
+        if key in seen:
+            return
+        seen.add(key)
         out.append({'harness': h, 'fn': fn, 'params': params, 'requires': req, 'weight': w, **lim})
 
-    # ---- H1a: data-decided fate of the first frame ----
+    # ---- H1a: data-decided fate of the first frame -----------------------------------------------------------------
     for port in ('plain', 'obf'):
         for n in range(b['any_obf' if port == 'obf' else 'any'] + 1):
             add('incoming', h_incoming, {'port': port, 'first': 'any', 'n_any': n}, core + ['accepted_registered_iff_valid_init'],
-                30 * 1.5 ** n * (3 if port == 'obf' else 1))
+                1.4 ** n * (2 if port == 'obf' else 1))
         for first in FIRST_ALL:
             req = core + ([] if first == 'silence' else ['accepted_registered_iff_valid_init'])
             if first.startswith('pierce') and first != 'pierce_0':
                 req = req + ['pierce_completes_matching_attempt_only', 'pierce_completed_attempt']
             add('incoming', h_incoming, {'port': port, 'first': first}, req, 10)
-    # ---- H1b: ways an accepted connection ends x injected concurrent action ----
-    if tier == 'quick':
-        combos = [('plain', 'init_P', t, i) for t in TAILS for i in ('disconnect',)]
-        combos += [('obf', 'init_P', t, 'send') for t in ('frames_batch', 'local', 'eof', 'send_after_closed')]
-        combos += [('plain', 'init_D', t, 'net_disconnect') for t in ('frames_batch', 'reset', 'send_hang')]
-        combos += [('plain', 'init_F', t, i) for t in ('local', 'send_reset', 'send_after_closed') for i in ('none', 'double')]
-        combos += [('plain', 'pierce_match', t, i) for t in ('none', 'eof') for i in ('disconnect', 'remote_reset')]
-        combos += [('plain', f, 'none', 'disconnect') for f in ('silence', 'eof_mid', 'pierce_1', 'unknown_code')]
-        combos += [('plain', 'init_P', t, 'none') for t in TAILS]
+
+    # ---- H1b: ways an accepted connection ends x injected concurrent action --------------------------------------------
+    def inc(port, first, t, i, slow='none'):
+        typ = 'P' if first in ('init_ticket8', 'pierce_match') else first[-1] if first in FIRST_VALID else None
+        if t != 'none' and first not in FIRST_VALID:
+            return
+        if typ == 'F' and _frame_tail(t):
+            return
+        req = core + (['send_after_closed_attempted'] if t == 'send_after_closed' and i == 'none' else [])
+        req = req + (['scenario_delivers_messages'] if t == 'frames_eof' and i == 'none' else [])
+        params = {'port': port, 'first': first, 'tail': t, 'inject': i}
+        if slow != 'none':
+            params['slow'] = slow
+        add('incoming', h_incoming, params, req, 300 if i == 'double' else 60 if i != 'none' else 2)
+    if quick:
+        for t in TAILS:
+            for i in ('none', 'disconnect', 'send'):
+                inc('plain', 'init_P', t, i)
+            inc('plain', 'init_P', t, 'disconnect', 'states')
+            inc('plain', 'init_D', t, 'net_disconnect')
+            inc('plain', 'init_F', t, 'remote_reset')
+        for t in ('frames_batch', 'local', 'eof', 'send_after_closed', 'eof_mid_frame', 'send_hang'):
+            inc('obf', 'init_P', t, 'disconnect')
+            inc('obf', 'init_D', t, 'send')
+        for t in ('none', 'eof', 'local'):
+            inc('plain', 'pierce_match', t, 'remote_eof')
+            inc('plain', 'init_ticket8', t, 'disconnect')
+        for t in ('local', 'handler_disconnects', 'send_reset'):
+            inc('plain', 'init_P', t, 'double')
+        for first in FIRST_ALL:
+            if first not in FIRST_VALID:
+                inc('plain', first, 'none', 'disconnect')
+                inc('obf', first, 'none', 'net_disconnect')
     else:
-        combos = []
         for port in ('plain', 'obf'):
             for first in FIRST_VALID:
-                typ = 'P' if first in ('init_ticket8', 'pierce_match') else first[-1]
                 for t in TAILS:
-                    if typ == 'F' and t in ('frames_eof', 'frames_batch', 'handler_disconnects'):
-                        continue
-                    if first in ('init_ticket8',) and t not in ('none', 'eof', 'local'):
+                    if first == 'init_ticket8' and t not in ('none', 'eof', 'local'):
                         continue
                     for i in INJECTS:
                         if port == 'obf' and (i in ('double', 'remote_eof') or first not in ('init_P', 'init_D')):
                             continue
-                        combos.append((port, first, t, i))
+                        inc(port, first, t, i)
+                    if first in ('init_P', 'init_F') and port == 'plain':
+                        for i in ('disconnect', 'net_disconnect', 'send', 'remote_reset'):
+                            inc(port, first, t, i, 'states')
             for first in FIRST_ALL:
-                if first in FIRST_VALID:
-                    continue
-                for i in INJECTS[1:]:
-                    combos.append((port, first, 'none', i))
-    for port, first, t, i in combos:
-        req = core + (['send_after_closed_attempted'] if t == 'send_after_closed' and i == 'none' else [])
-        req = req + (['scenario_delivers_messages'] if t == 'frames_eof' and i == 'none' else [])
-        add('incoming', h_incoming, {'port': port, 'first': first, 'tail': t, 'inject': i}, req, 60 if i != 'none' else 2)
-    # ---- H2: outgoing ----
-    oc = []
-    if tier == 'quick':
+                if first not in FIRST_VALID:
+                    for i in INJECTS[1:]:
+                        inc(port, first, 'none', i)
+                    inc(port, first, 'none', 'disconnect', 'states')
+
+    # ---- H2: outgoing --------------------------------------------------------------------------------------------------
+    def outg(via, mode, typ, connect, initsend, t, inj, slow='none'):
+        if via == 'request' and (mode == 'race' or inj in ('cancel', 'pierce') or _frame_tail(t) or t == 'eof_mid_frame'):
+            return
+        if typ == 'F' and _frame_tail(t):
+            return
+        if t != 'none' and (connect != 'ok' or initsend != 'ok'):
+            return
+        params = {'via': via, 'mode': mode, 'typ': typ, 'connect': connect, 'initsend': initsend, 'tail': t, 'inject': inj}
+        if slow != 'none':
+            params['slow'] = slow
+        add('outgoing', h_outgoing, params, core + ['outgoing_connection_created'], 300 if inj == 'double' else 60 if inj != 'none' else 2)
+    if quick:
         for connect in CONNECTS:
-            oc.append(('direct_plain', 'fallback', 'P', connect, 'ok', 'none', 'cancel'))
-            oc.append(('direct_plain', 'fallback', 'P', connect, 'ok', 'none', 'disconnect'))
-            oc.append(('direct_plain', 'race', 'P', connect, 'ok', 'none', 'pierce'))
-            oc.append(('direct_plain', 'fallback', 'P', connect, 'ok', 'none', 'none'))
-            oc.append(('request', 'fallback', 'P', connect, 'ok', 'none', 'net_disconnect'))
+            for inj in ('none', 'cancel', 'disconnect', 'net_disconnect'):
+                outg('direct_plain', 'fallback', 'P', connect, 'ok', 'none', inj)
+            outg('direct_plain', 'race', 'P', connect, 'ok', 'none', 'pierce')
+            outg('direct_obf', 'race', 'D', connect, 'ok', 'none', 'cancel')
+            outg('request', 'fallback', 'P', connect, 'ok', 'none', 'net_disconnect')
+            outg('request', 'fallback', 'F', connect, 'ok', 'none', 'disconnect')
+            outg('direct_plain', 'fallback', 'P', connect, 'ok', 'none', 'disconnect', 'states')
+            outg('direct_plain', 'fallback', 'F', connect, 'ok', 'none', 'cancel', 'states')
         for initsend in ('reset', 'hang'):
-            oc.append(('direct_obf', 'fallback', 'P', 'ok', initsend, 'none', 'disconnect'))
-            oc.append(('request', 'fallback', 'D', 'ok', initsend, 'none', 'none'))
-            oc.append(('direct_plain', 'race', 'D', 'ok', initsend, 'none', 'cancel'))
-        for t in ('frames_batch', 'eof', 'reset', 'send_reset', 'local', 'send_after_closed', 'net_disconnect', 'handler_disconnects'):
-            oc.append(('direct_plain', 'fallback', 'P', 'ok', 'ok', t, 'disconnect'))
-            oc.append(('direct_obf', 'fallback', 'P', 'ok', 'ok', t, 'none'))
-        oc.append(('direct_plain', 'fallback', 'F', 'ok', 'ok', 'local', 'cancel'))
-        oc.append(('direct_plain', 'race', 'F', 'ok_slow', 'ok', 'none', 'net_disconnect'))
+            for inj in ('none', 'disconnect', 'cancel'):
+                outg('direct_obf', 'fallback', 'P', 'ok', initsend, 'none', inj)
+            outg('request', 'fallback', 'D', 'ok', initsend, 'none', 'net_disconnect')
+            outg('direct_plain', 'race', 'D', 'ok', initsend, 'none', 'pierce')
+        for t in TAILS[1:]:
+            outg('direct_plain', 'fallback', 'P', 'ok', 'ok', t, 'disconnect')
+            outg('direct_obf', 'fallback', 'P', 'ok', 'ok', t, 'none')
+            outg('direct_plain', 'fallback', 'D', 'ok', 'ok', t, 'send')
+            outg('request', 'fallback', 'P', 'ok', 'ok', t, 'remote_reset')
+            outg('direct_plain', 'fallback', 'F', 'ok', 'ok', t, 'cancel')
     else:
         for via in VIAS:
             for mode in ('fallback', 'race'):
-                if via == 'request' and mode == 'race':
-                    continue
                 for typ in ('P', 'D', 'F'):
                     for connect in CONNECTS:
                         for initsend in ('ok', 'reset', 'hang'):
-                            if initsend != 'ok' and connect not in ('ok',):
+                            if initsend != 'ok' and connect != 'ok':
                                 continue
                             for inj in OUT_INJECTS:
-                                if inj == 'cancel' and via == 'request':
-                                    continue
-                                if inj == 'pierce' and via == 'request':
-                                    continue
                                 if typ != 'P' and inj in ('double', 'remote_eof', 'send'):
                                     continue
-                                oc.append((via, mode, typ, connect, initsend, 'none', inj))
+                                outg(via, mode, typ, connect, initsend, 'none', inj)
+                            for inj in ('disconnect', 'cancel', 'net_disconnect', 'pierce'):
+                                if typ == 'P':
+                                    outg(via, mode, typ, connect, initsend, 'none', inj, 'states')
             for typ in ('P', 'D', 'F'):
                 for t in TAILS[1:]:
-                    if via == 'request' and t in ('frames_eof', 'frames_batch', 'handler_disconnects', 'eof_mid_frame'):
-                        continue
-                    if typ == 'F' and t in ('frames_eof', 'frames_batch', 'handler_disconnects'):
-                        continue
-                    for inj in ('none', 'disconnect', 'net_disconnect', 'send', 'cancel'):
-                        if inj == 'cancel' and via == 'request':
+                    for inj in ('none', 'disconnect', 'net_disconnect', 'send', 'cancel', 'remote_reset'):
+                        if typ != 'P' and inj in ('send', 'remote_reset'):
                             continue
-                        if typ != 'P' and inj in ('send',):
-                            continue
-                        oc.append((via, 'fallback', typ, 'ok', 'ok', t, inj))
-    for via, mode, typ, connect, initsend, t, inj in oc:
-        req = core + ['outgoing_connection_created']
-        add('outgoing', h_outgoing, {'via': via, 'mode': mode, 'typ': typ, 'connect': connect, 'initsend': initsend, 'tail': t, 'inject': inj},
-            req, 60 if inj != 'none' else 2)
-    # ---- H3: server ----
-    sc = []
-    if tier == 'quick':
+                        outg(via, 'fallback', typ, 'ok', 'ok', t, inj)
+                    if typ == 'P':
+                        outg(via, 'fallback', typ, 'ok', 'ok', t, 'disconnect', 'states')
+
+    # ---- H3: server ------------------------------------------------------------------------------------------------------
+    def srv(connect, end, second, inj, slow='none'):
+        params = {'connect': connect, 'end': end, 'second': second, 'inject': inj}
+        if slow != 'none':
+            params['slow'] = slow
+        add('server', h_server, params, core, 80 if inj != 'none' else 3)
+    if quick:
         for end in SERVER_ENDS:
-            sc.append(('ok', end, 'ok', 'disconnect'))
-        sc += [('refused', 'eof', 'ok', 'none'), ('hang', 'eof', 'ok', 'none'), ('ok', 'reset', 'refused', 'none'), ('ok_slow', 'reset', 'ok', 'send')]
+            for inj in ('none', 'disconnect', 'send'):
+                srv('ok', end, 'ok', inj)
+            srv('ok', end, 'refused', 'disconnect', 'states')
+        for connect in ('ok_slow', 'refused', 'hang'):
+            srv(connect, 'eof', 'ok', 'disconnect')
+            srv(connect, 'reset', 'ok', 'none')
     else:
         for connect in ('ok', 'ok_slow', 'refused', 'hang'):
             for end in SERVER_ENDS:
-                if connect in ('refused', 'hang') and end != 'eof':
+                if connect in ('refused', 'hang') and end not in ('eof', 'reset'):
                     continue
                 for second in ('ok', 'refused'):
                     for inj in ('none', 'disconnect', 'send'):
-                        sc.append((connect, end, second, inj))
-    for connect, end, second, inj in sc:
-        add('server', h_server, {'connect': connect, 'end': end, 'second': second, 'inject': inj}, core, 80 if inj != 'none' else 3)
+                        srv(connect, end, second, inj)
+                        if inj != 'none':
+                            srv(connect, end, second, inj, 'states')
     out.sort(key=lambda j: -j.get('weight', 1))
     for j in out:
         j.pop('weight', None)
